@@ -1337,3 +1337,16 @@ Example C02_noclock_exclusion_example :
     <> Unmodelled /\
   fst (ev clock_cfg clock_expr) = Unmodelled.
 Proof. exact noclock_exclusion_example. Qed.
+
+(* a by-product of [C02_unmodelled_never_swallowed]: AllExtends.v's conservative extension lifted from the dispatchers to
+   the EVALUATOR — a program on which the evaluator of the EVAL streams does not end in Unmodelled is computed
+   identically (outcome, store, scope chain) by the evaluator with every built-in, for every oracle; so every `_fullbi`
+   theorem above about such a program is one about eval_all, with no hypothesis on the oracle *)
+Theorem C02_eval_all_extends_full : forall o release d c e,
+  fst (evalD release binop_impl builtin_full d c e) <> Unmodelled ->
+  evalD release (binop_all o) (builtin_all o) d c e = evalD release binop_impl builtin_full d c e.
+Proof. exact evalD_all_extends_full. Qed.
+Check C02_eval_all_extends_full : forall o release d c e,
+  fst (evalD release binop_impl builtin_full d c e) <> Unmodelled ->
+  evalD release (binop_all o) (builtin_all o) d c e = evalD release binop_impl builtin_full d c e.
+Print Assumptions C02_eval_all_extends_full.
